@@ -11,11 +11,11 @@ XInit ==
   /\ ph = 0
   /\ \E n \in XN :
        \/ \E tg \in [1..n -> XE], cu \in [1..n -> XE], pf \in [1..n -> {"i", "u"}] :
-            cs = [op |-> "update_ibi_pot", n |-> n, seed |-> 0, x0 |-> 1, h |-> <<1, 4>>, g |-> UniformG(n), tg |-> tg, cu |-> cu,
+            cs = [op |-> "update_ibi_pot", n |-> n, seed |-> 0, x0 |-> 1, h |-> <<1, 4>>, g |-> UniformG(n), e4 |-> FALSE, ye |-> <<1, 4>>, zsp |-> "0.0", twice |-> FALSE, tg |-> tg, cu |-> cu,
                   pot |-> Tab([k \in 1..n |-> RI(k)], pf), c |-> <<1, 1>>]
        \/ \E e \in [1..n -> {Z, -1, 1, 2}] :
             /\ \E k \in 1..n : e[k] # Z
-            /\ cs = [op |-> "dist_boltzmann_invert", n |-> n, seed |-> 0, x0 |-> 1, h |-> <<1, 4>>, g |-> UniformG(n), e |-> e,
+            /\ cs = [op |-> "dist_boltzmann_invert", n |-> n, seed |-> 0, x0 |-> 1, h |-> <<1, 4>>, g |-> UniformG(n), e4 |-> FALSE, ye |-> <<1, 4>>, zsp |-> "0.0", twice |-> FALSE, e |-> e,
                      usemin |-> FALSE, mk |-> -40, c |-> <<3, 2>>, type |-> ""]
 XSpec == XInit /\ [][Next]_vars
 =============================================================================
